@@ -277,4 +277,15 @@ Proof.
   { apply reachable_inv. split; [intros j; exact Hg|]. split; [intros j; cbn; split; [exact Hc0|lia]|]. intros b' k' []. }
   destruct HI as (_ & Hc & _). apply Hc.
 Qed.
+(* ... and the bookkeeping bytes of every bucket stay well-formed *)
+Theorem good_all_histories b0 ops i :
+  goodB b0 -> cntB b0 = 0 ->
+  let s := fold_left step ops {| bk := fun _ => []; bd := fun _ => b0 |} in
+  goodB (bd s i).
+Proof.
+  intros Hg Hc0 s.
+  assert (HI : Inv s).
+  { apply reachable_inv. split; [intros j; exact Hg|]. split; [intros j; cbn; split; [exact Hc0|lia]|]. intros b' k' []. }
+  destruct HI as (Hgood & _ & _). apply Hgood.
+Qed.
 End Table.
